@@ -16,7 +16,9 @@ import (
 	"github.com/textwire/textwire/v2/parser"
 	"pgregory.net/rapid"
 	"verif/lib/harness"
+	"verif/lib/spec"
 	"verif/lib/tree"
+	"verif/lib/tw"
 )
 
 // C18 — templates are addressable by relative name; a bad file fails loading cleanly.
@@ -353,6 +355,87 @@ func TestC18_FaultEnumeration(t *testing.T) {
 				bad := !parsesAlone(soup)
 				run(faultCase{Tree: tr, Faulty: p, Op: "garbage", MustFail: bad, Mention: []string{p}})
 			}
+		}
+	})
+}
+
+// ---------------------------------------------------------------- file == string == single-page template
+
+type apiCase struct {
+	Src  string     `json:"src"`
+	Data *spec.Data `json:"data,omitempty"`
+}
+
+func init() {
+	harness.RegisterReplayer("C18/file-equals-string", func(raw json.RawMessage) string {
+		cs, err := unJSON[apiCase](raw)
+		if err != nil {
+			return "bad case: " + err.Error()
+		}
+		return c18APIs(harness.New(nopTB{}, "C18", "replay", ""), cs)
+	})
+}
+
+// c18APIs renders one source through EvaluateString, EvaluateFile and as the
+// only page of a template directory: same output, same error-ness, same message.
+func c18APIs(c *harness.Check, cs apiCase) string {
+	root, err := tree.Materialise(tree.Tree{"t/sub/page.tw": {Content: cs.Src}})
+	if err != nil {
+		return ""
+	}
+	var failure string
+	pi := c.Guard("json", mustJSON(cs), func() {
+		so, serr := textwire.EvaluateString(cs.Src, cs.Data.GoMap())
+		fo, ferr := textwire.EvaluateFile(filepath.Join(root, "t", "sub", "page.tw"), cs.Data.GoMap())
+		if so != fo || (serr == nil) != (ferr == nil) || (serr != nil && serr.Error() != ferr.Error()) {
+			failure = fmt.Sprintf("EvaluateString: %q / %v; EvaluateFile of the same content: %q / %v", so, serr, fo, ferr)
+			return
+		}
+		textwire.VerifReset()
+		tpl, lerr := textwire.NewTemplate(&config.Config{TemplateDir: "t", TemplateExt: ".tw"})
+		if lerr != nil {
+			// a parse error: the string API must report the same message and line
+			if serr == nil || errMessage(serr.Error()) != errMessage(lerr.Error()) {
+				failure = fmt.Sprintf("loading fails (%v) but EvaluateString gives %q / %v", lerr, so, serr)
+			}
+			return
+		}
+		to, terr := tpl.String("sub/page", cs.Data.GoMap())
+		if to != so || (terr == nil) != (serr == nil) {
+			failure = fmt.Sprintf("EvaluateString: %q / %v; the same source as a page: %q / %v", so, serr, to, terr)
+			return
+		}
+		if terr != nil {
+			sl, _, _ := errLine(serr.Error())
+			if terr.Message() != errMessage(serr.Error()) || int(terr.Line()) != sl {
+				failure = fmt.Sprintf("error differs between the APIs: string %q line %d, page %q line %d", errMessage(serr.Error()), sl, terr.Message(), terr.Line())
+			}
+		}
+	})
+	if pi != nil {
+		return "panic: " + pi.Value
+	}
+	return failure
+}
+
+func TestC18_FileEqualsString(t *testing.T) {
+	c := harness.New(t, "C18", "file-equals-string",
+		"generated programs (branches, loops, assignments, built-in calls, multi-line layouts, deliberate run-time faults) with generated data rendered three ways: EvaluateString(content), EvaluateFile(path of a file with that content) and String() of the only page of a directory holding that file: same output, same error-ness, same message and line. (Sources with layout/component directives are not generated: in a directory they mean something else.) Non-trivial: the program has a construct. Distinct by hash.")
+	defer c.Finish()
+	runRapid(t, c, 1500, 20000, func(rt *rapid.T) {
+		env := genProgEnv().Draw(rt, "data")
+		g := newProgGen(rt, env)
+		g.wIf, g.wLoop, g.wAssign, g.wCtl = 3, 3, 3, 2
+		prog := g.block(3, false)
+		src := tw.PrintStmts(prog, genLayout().Draw(rt, "layout")).Src
+		cs := apiCase{Src: src, Data: env.D}
+		nt := strings.ContainsAny(src, "{@")
+		c.Case(nt, src+mustJSON(env.D))
+		if nt && c.S.Evals%50 == 0 {
+			c.Sample(src)
+		}
+		if f := c18APIs(c, cs); f != "" {
+			c.Fail(rt, kindOf(f), cs, "three APIs agree", f, f)
 		}
 	})
 }
